@@ -238,6 +238,47 @@ namespace
             return out + "]";
         }
 
+        // take every node the pool reports as free through the composable interface (never grows):
+        // the number obtained is what the reported capacity is worth
+        void drain(const Cmd& c)
+        {
+            std::string fam = cur->family();
+            if (fam != "pool" && fam != "coll")
+                return;
+            std::size_t sz = static_cast<std::size_t>(c.arg(0, 1));
+            if (fam == "pool")
+                sz = cur->node_size() < sz ? cur->node_size() : sz;
+            Scal        s0 = cur->scal(sz);
+            auto&       w  = world();
+            long        c0 = w.up_calls;
+            long long   got = 0;
+            std::vector<void*> taken;
+            std::string r = "ok";
+            while (got <= s0.fn + 2)
+            {
+                void* p = nullptr;
+                r       = classify([&] { p = cur->tn(sz, 1); });
+                if (r != "ok" || !p)
+                    break;
+                taken.push_back(p);
+                ++got;
+            }
+            long long inside = 0;
+            for (void* p : taken)
+            {
+                long blk, off;
+                w.project(p, blk, off);
+                if (blk >= 0)
+                    ++inside;
+            }
+            Scal s1 = cur->scal(sz);
+            for (auto it = taken.rbegin(); it != taken.rend(); ++it)
+                classify([&] { cur->dn(*it, sz, 1); });
+            Scal s2 = cur->scal(sz);
+            Ev("drain").i("o", cur->o).u("sz", sz).i("fn0", s0.fn).i("got", got).i("inside", inside).i("fn1", s1.fn).i(
+                "fn2", s2.fn).i("ups", w.up_calls - c0).s("r", r);
+        }
+
         void sib_alloc(const Cmd& c)
         {
             if (!sib)
@@ -312,6 +353,12 @@ namespace
                 gd += count_not(b.base - b.gap, b.gap, World::guard_byte);
                 gd += count_not(b.base + b.size, b.tail, World::guard_byte);
             }
+            // blocks that went back to the upstream were poisoned and are never handed out again:
+            // any other byte in them was written after the return
+            std::size_t dd = 0;
+            for (auto& b : w.blocks)
+                if (!b.live && !b.is_static && b.poisoned)
+                    dd += count_not(b.base, b.size, World::dead_byte);
             for (auto& h : sib_live)
             {
                 long first;
@@ -320,7 +367,7 @@ namespace
                     ++nbad;
             }
             Ev("sweep").i("o", cur ? cur->o : -1).u("checked", ncheck).u("nbad", nbad).raw("bad", bl).u(
-                "gd", gd);
+                "gd", gd).u("dd", dd);
         }
 
         void do_mark()
@@ -509,6 +556,8 @@ namespace
                         kill_zombies();
                     else if (op == "sweep")
                         sweep();
+                    else if (op == "drain")
+                        drain(c);
                     else if (op == "san")
                         sib_alloc(c);
                     else if (op == "tdx")
@@ -549,6 +598,9 @@ namespace
                     destroy(sib, false);
                 destroy(cur, false);
                 kill_zombies();
+                cur = nullptr;
+                live.clear(); // whatever the script leaked on purpose went away with the allocator
+                sweep();
             }
             Ev("end").i("blocks", static_cast<long long>(world().blocks.size()));
         }
